@@ -35,7 +35,23 @@ fn canon_view(view: &J) -> BTreeMap<String, J> {
         }).collect()).unwrap_or_default();
         let ty = o["ty"].as_str().unwrap_or("");
         let len = if ty == "list" || ty == "text" { o["len"].as_i64().unwrap_or(0) } else { 0 };
-        out.insert(id, json!({"ty": ty, "len": len, "ents": ents, "elems": elems}));
+        // text: the projection has one register per unit index; consecutive equal entries are one
+        // element (ids are unique), which is the shape the specification's view has
+        let mut elems = elems;
+        if ty == "text" {
+            if let Some(units) = o["units"].as_array() {
+                let mut es: Vec<(String, Vec<String>)> = vec![];
+                for e in units {
+                    let x = (format!("{}@{}", e["win"][0], e["win"][1]), canon_vals(&e["vals"]));
+                    if es.last() != Some(&x) {
+                        es.push(x);
+                    }
+                }
+                elems = es;
+            }
+        }
+        let text = if ty == "text" { o["text"].clone() } else { json!([]) };
+        out.insert(id, json!({"ty": ty, "len": len, "ents": ents, "elems": elems, "text": text}));
     }
     out
 }
@@ -45,6 +61,7 @@ fn replay_doc(args: &[String]) {
     use automerge::transaction::CommitOptions;
     world::silence_panics();
     let with_list = args.get(4).map(|s| s == "list").unwrap_or(false);
+    let with_text: Option<automerge::TextEncoding> = args.get(4).and_then(|s| s.strip_prefix("text:")).map(world::enc_from);
     let text = std::fs::read_to_string(&args[2]).expect("behaviours");
     let mut nb = 0usize;
     let mut nsteps = 0usize;
@@ -60,7 +77,24 @@ fn replay_doc(args: &[String]) {
         let _ = std::fs::write(format!("{}.progress", &args[3]), format!("{}", nb - 1));
         let mut reps: BTreeMap<i64, Automerge> = BTreeMap::new();
         for k in 1..=3i64 {
-            reps.insert(k, Automerge::new().with_actor(enc::actor_from_num(k as u8)));
+            let d = match with_text {
+                Some(e) => Automerge::new_with_encoding(e),
+                None => Automerge::new(),
+            };
+            reps.insert(k, d.with_actor(enc::actor_from_num(k as u8)));
+        }
+        if with_text.is_some() {
+            let d = reps.get_mut(&1).unwrap();
+            let mut tx = d.transaction();
+            for c in [json!({"fn":"put_object","obj":[0,0],"key":"t","ty":"text"}),
+                      json!({"fn":"splice_text","obj":[1,1],"idx":0,"del":0,"toks":["a","eacute"]})] {
+                calls::exec(&mut tx, &c);
+            }
+            tx.commit_with(CommitOptions::default().with_time(0));
+            let mut base = reps[&1].clone();
+            for k in 2..=3i64 {
+                reps.get_mut(&k).unwrap().merge(&mut base).unwrap();
+            }
         }
         if with_list {
             let d = reps.get_mut(&1).unwrap();
@@ -78,7 +112,7 @@ fn replay_doc(args: &[String]) {
         }
         // change id (start op counter, actor) -> hash, for historical reads
         let mut chash: BTreeMap<(i64, i64), automerge::ChangeHash> = BTreeMap::new();
-        if with_list {
+        if with_list || with_text.is_some() {
             if let Some(c) = reps[&1].get_changes(&[]).first() {
                 chash.insert((1, 1), c.hash());
             }
